@@ -21,8 +21,12 @@ def run(tier):
     n, shards = (120, 4) if tier == "quick" else (2500, 16)
     cases, specs = [], {}
     for i in range(n):
-        pc = rgen_prim.gen_prim_case(g, i)
-        code, di = rgen_prim.render_case(pc, g)
+        if i % 5 == 4:
+            pc = rgen_prim.gen_two_prim_case(g, i)
+            code, di = rgen_prim.render_two_prim_case(pc, g)
+        else:
+            pc = rgen_prim.gen_prim_case(g, i)
+            code, di = rgen_prim.render_case(pc, g)
         pc.input = di
         cases.append(rt.Case(i, code, meta=pc, input_text=di))
         specs[i] = pc
@@ -39,7 +43,7 @@ def run(tier):
         ck.count()
         cid = int(re.match(r"c(\d+)", e["case"]).group(1))
         pc = specs[cid]
-        key = [pc.prim, [a.kind for a in pc.arms], overlap_class(pc), (pc.default or {}).get("mode", "-"), e["conv"]]
+        key = [pc.prim, [a.kind for a in pc.arms] if not getattr(pc, "two", False) else sorted({v["form"] for v in pc.variants}), overlap_class(pc), (pc.default or {}).get("mode", "-"), e["conv"]]
         ck.cell(key, nontrivial=len(pc.arms) >= 2)
         pr = e.get("probes", [])
         probes_ok = len(pr) % 2 == 0 and pr[:len(pr) // 2] == pr[len(pr) // 2:]
